@@ -26,7 +26,7 @@ Theorem C04_lookup : forall pg op npages root rowid p l,
   table_rowid pg op npages root rowid =
   match lookup_pl rowid l with
   | None => Ok None
-  | Some (_, pl) => do rec <- load pg npages pl; Ok (Some rec)
+  | Some (_, pl) => do rec <- load pg npages pl; Ok (nonempty rec)     (* a record without columns reads as "not found": Go's nil Record *)
   end.
 Proof. exact table_rowid_lookup. Qed.
 Print Assumptions C04_lookup.
